@@ -120,7 +120,7 @@ def monitor(ops, outs, pid, extras=None):
             flags = int(t[1])
         if t[0] == "setflags":
             m = re.match(r"rc (-?\d+) flags (\d+)", ln["res"])
-            if m and pid == "C13":
+            if m and pid in ("C13", "C02"):
                 want_ok = (not conn_open and ln["st"] == "d" or ln["st"] == "d") and not (
                     int(t[1]) & F_DISABLE_TLS and int(t[1]) & (F_MANDATORY_TLS | F_LEGACY_SSL | F_TRUST_TLS)) and int(t[1]) < 256
                 if m.group(1) == "0" and int(m.group(2)) != int(t[1]):
